@@ -595,28 +595,45 @@ class LoopRound:
             return True
         return any(self.has(c, kinds) for c in n.get('inner', []) if isinstance(c, dict))
 
-    def seq(self, lst):
+    def codes_in(self, n):
+        """ERRCODE_* constants handed to the exception callback in statement n"""
+        out = []
+        def walk(x):
+            if x.get('kind') == 'DeclRefExpr' and x.get('referencedDecl', {}).get('kind') == 'EnumConstantDecl' and x['referencedDecl'].get('name', '').startswith('ERRCODE_'):
+                out.append(x['referencedDecl']['name'])
+            for c in x.get('inner', []):
+                if isinstance(c, dict):
+                    walk(c)
+        walk(n)
+        return out
+
+    def leaf(self, kind, acc):
+        if self.mode == 'outcome':
+            return kind
+        return '[' + '; '.join('"' + c + '"%string' for c in acc) + ']'
+
+    def seq(self, lst, acc=()):
         if not lst:
-            return 'RCont'
+            return self.leaf('RCont', acc)
         s, rest = lst[0], lst[1:]
         k = s.get('kind')
         if k == 'CompoundStmt':
-            return self.seq(s.get('inner', []) + rest)
+            return self.seq(s.get('inner', []) + rest, acc)
         if k == 'ContinueStmt':
-            return 'RCont'
+            return self.leaf('RCont', acc)
         if k in ('BreakStmt', 'ReturnStmt'):
-            return 'RBrk'
+            return self.leaf('RBrk', acc)
         if k == 'IfStmt':
             inner = s['inner']
             c = self.cond(inner[0])
-            a = self.seq([inner[1]] + rest)
-            b = self.seq(([inner[2]] if len(inner) > 2 else []) + rest)
+            a = self.seq([inner[1]] + rest, acc)
+            b = self.seq(([inner[2]] if len(inner) > 2 else []) + rest, acc)
             return f'(if {c} then {a} else {b})'
         if k == 'DoStmt':
             body, c = s['inner'][0], self.strip(s['inner'][1])
             if not (c.get('kind') == 'IntegerLiteral' and c.get('value') == '0') or self.has(body, ('BreakStmt', 'ContinueStmt', 'ReturnStmt', 'GotoStmt')):
                 raise Unsupported('do-loop other than `do {..} while (0)` inside a worker loop')
-            return self.seq([body] + rest)
+            return self.seq([body] + rest, acc)
         if k == 'ForStmt':
             parts = s['inner']
             c = self.strip(parts[2]) if len(parts) > 2 and parts[2] else {}
@@ -631,11 +648,11 @@ class LoopRound:
             if not ok or self.has(s, ('ReturnStmt', 'GotoStmt', 'WhileStmt')):
                 raise Unsupported('inner for-loop without a constant bound (or with return / goto / while inside)')
             self.note_calls(s)
-            return self.seq(rest)
+            return self.seq(rest, tuple(acc) + tuple(self.codes_in(s)))
         if k in ('WhileStmt', 'SwitchStmt', 'GotoStmt', 'CXXTryStmt', 'CXXForRangeStmt', 'LabelStmt'):
             raise Unsupported(f'{k} inside a worker loop')
         self.note_calls(s)
-        return self.seq(rest)
+        return self.seq(rest, tuple(acc) + tuple(self.codes_in(s)))
 
     def translate(self, fname):
         bodies = [c for c in self.node.get('inner', []) if c['kind'] == 'CompoundStmt']
@@ -645,12 +662,20 @@ class LoopRound:
         if len(whiles) != 1 or self.has({'inner': [c for c in bodies[0]['inner'] if c['kind'] != 'WhileStmt']}, ('WhileStmt', 'DoStmt', 'ForStmt', 'GotoStmt')):
             raise Unsupported('thread function is not `prologue; while (guard) { body } epilogue`')
         w = whiles[0]
+        self.mode = 'outcome'
         g = self.cond(w['inner'][0])
         body = self.seq([w['inner'][1]])
+        conds, calls = list(self.conds), list(self.calls)
+        # second pass, same tree: the error codes handed to the exception callback along each path of the round
+        self.mode = 'reports'; self.conds = []; self.calls = []
+        g2 = self.cond(w['inner'][0])
+        rep = self.seq([w['inner'][1]])
+        assert g2 == g and self.conds == conds
         q = lambda t: '"' + t.replace('"', '""') + '"%string'
-        return (f'Definition {fname}_conds : list string := [{"; ".join(q(c) for c in self.conds)}].\n'
-                f'Definition {fname}_calls : list string := [{"; ".join(q(c) for c in self.calls)}].\n'
-                f'Definition {fname}_round (ex : bool) (cs : list bool) : round_outcome :=\n  if {g} then {body} else RBrk.\n')
+        return (f'Definition {fname}_conds : list string := [{"; ".join(q(c) for c in conds)}].\n'
+                f'Definition {fname}_calls : list string := [{"; ".join(q(c) for c in calls)}].\n'
+                f'Definition {fname}_round (ex : bool) (cs : list bool) : round_outcome :=\n  if {g} then {body} else RBrk.\n'
+                f'Definition {fname}_reports (ex : bool) (cs : list bool) : list string :=\n  if {g} then {rep} else [].\n')
 
 
 class Translator:
